@@ -41,7 +41,7 @@ CHECKS = {
    note="Box bounds: complete F range for T<=10 (Kt<=8, Z<=4) and T in {1,2,3,4,6} (Kt<=14, Z<=7); wide box T<=32 (64 thorough) with every Al|T and every N, Kt<=12 (16), Z<=7 (9), F at the five remainders that matter; larger shapes only encode-only at selected sizes."),
  "C06": dict(level="exploration", design="5/C06", technique="complete product over all 477 K' x {K', min K} x {dense, sparse} x {direct, plan replay}, certificate check by the reference model; repeated in the debug-assertions build",
    text="For every block size the encoder is built in all four variants on the real code; all variants must succeed, agree, and satisfy every LDPC/HDPC/LT relation evaluated by the reference model. The thorough tier is the complete product (exhaustive over the finite set of block sizes).",
-   note="Quick tier restricts the dense back-end to K'<=1100. Checked-profile runs stop at K'=1100 (cubic self-checks)."),
+   note="Quick tier restricts the dense back-end to K'<=700 and the minimum-K partner to K'<=1100. Checked-profile runs stop at K'=1100 (cubic self-checks)."),
  "C16": dict(level="model_checking", design="5/C16", technique="bounded exhaustive exploration of admissible operation sequences on real dense + sparse matrices against a plain-array model (exact dedup on the objects' Hash/Eq), plus lock-step traces of the real solver over a forwarding BinaryMatrix implementation",
    text="All admissible sequences (depth 3 quick / 4 thorough) of interface operations over boundary alphabets from seeds whose dense tails cross the 64-bit word boundary are applied to a real DenseBinaryMatrix, a real SparseBinaryMatrix and a 2-D array with undefined cells; all cells and all queries must agree in every state. The real solver is additionally run on a matrix that forwards every call to both implementations and the model, for encoding (K'<=101 quick / 500 thorough) and decoding traces, in release and debug-assertions builds.",
    note="Admissibility = preconditions read off the code; matrices whose dense tail was dropped are only exercised with get/set/swap/add/resize."),
